@@ -107,6 +107,8 @@ class Facts:
         self._syn = None
         self._mir = None
         self._src = {}
+        self._consts = None
+        self._raw = {}
         self.timing = {}
 
     # ---------------- E2: syntax trees
@@ -137,16 +139,80 @@ class Facts:
         with open(os.path.join(d, ".done")) as fh:
             return [l for l in fh.read().split("\n") if l]
 
+    def _raw_syn(self, rel):
+        d = self.syn_dir()
+        p = os.path.join(d, rel + ".json")
+        if not os.path.exists(p):
+            raise AnalysisIncomplete(f"source file {rel} not found in the tree")
+        with open(p) as fh:
+            return json.load(fh)
+
+    def consts(self):
+        """{NAME: Lit node} for every `const NAME: T = <literal>;` of the workspace's non-test sources whose name is defined once (or always
+        with the same value).  A named constant and the literal it stands for are the same program: every rule sees the literal, in the
+        trees (syn) and in span texts (text), so extracting a constant from a literal - or inlining one - changes no verdict.  Constants a
+        rule asks for by name (the artifact format markers, say) stay names."""
+        if self._consts is None:
+            import re as _re
+            named = set()
+            for dname in ("rules", "lib"):
+                for fn in os.listdir(os.path.join(VERIF, dname)):
+                    if fn.endswith(".py"):
+                        with open(os.path.join(VERIF, dname, fn), encoding="utf-8") as fh:
+                            named |= set(_re.findall(r"\b[A-Z][A-Z0-9_]{2,}\b", fh.read()))
+            found = {}
+
+            def items(its):
+                for it in its or []:
+                    k = it.get("k")
+                    if k == "Const" and not it.get("static") and isinstance(it.get("expr"), dict):
+                        e = it["expr"]
+                        if e.get("k") == "Unary" and e.get("op") == "-" and isinstance(e.get("expr"), dict):
+                            continue
+                        if e.get("k") == "Lit" and e.get("lit") in ("Str", "Int", "Char", "Bool", "Float", "ByteStr", "Byte"):
+                            found.setdefault(it["name"], []).append(e)
+                    elif k in ("Mod", "Impl", "Trait") and it.get("items") is not None:
+                        items(it["items"])
+            for rel in self.syn_files():
+                parts = rel.split("/")
+                if len(parts) >= 3 and parts[2] == "src" and "/tests/" not in rel and not rel.endswith("/tests.rs"):
+                    self._raw[rel] = self._raw_syn(rel)
+                    items(self._raw[rel].get("items"))
+            self._consts = {}
+            for name, lits in found.items():
+                if name in named or len({(l.get("lit"), l.get("value")) for l in lits}) != 1:
+                    continue
+                self._consts[name] = lits[0]
+        return self._consts
+
+    def _inline_consts(self, node, table):
+        if isinstance(node, list):
+            for x in node:
+                self._inline_consts(x, table)
+        elif isinstance(node, dict):
+            if node.get("k") == "Path" and isinstance(node.get("segs"), list) and node["segs"] and node["segs"][-1] in table and \
+                    (len(node["segs"]) == 1 or node["segs"][-2] in ("Self", "self", "super", "crate") or node["segs"][-2][:1].islower()):
+                lit = table[node["segs"][-1]]
+                sp = node.get("sp")
+                name = node["segs"][-1]
+                node.clear()
+                node.update({"k": "Lit", "lit": lit.get("lit"), "value": lit.get("value"), "sp": sp, "const": name})
+                return
+            if node.get("k") == "Const":
+                return  # the definition itself keeps its shape
+            for v in node.values():
+                if isinstance(v, (dict, list)):
+                    self._inline_consts(v, table)
+
     def syn(self, rel):
         if self._syn is None:
             self._syn = {}
         if rel not in self._syn:
-            d = self.syn_dir()
-            p = os.path.join(d, rel + ".json")
-            if not os.path.exists(p):
-                raise AnalysisIncomplete(f"source file {rel} not found in the tree")
-            with open(p) as fh:
-                self._syn[rel] = json.load(fh)
+            table = self.consts()
+            tree = self._raw.pop(rel, None) or self._raw_syn(rel)
+            if table:
+                self._inline_consts(tree, table)
+            self._syn[rel] = tree
         return self._syn[rel]
 
     def source_lines(self, rel):
@@ -160,9 +226,25 @@ class Facts:
         lines = self.source_lines(rel)
         l0, c0, l1, c1 = sp
         if l0 == l1:
-            return lines[l0 - 1][c0:c1]
-        parts = [lines[l0 - 1][c0:]] + lines[l0:l1 - 1] + [lines[l1 - 1][:c1]]
-        return "\n".join(parts)
+            out = lines[l0 - 1][c0:c1]
+        else:
+            parts = [lines[l0 - 1][c0:]] + lines[l0:l1 - 1] + [lines[l1 - 1][:c1]]
+            out = "\n".join(parts)
+        table = self.consts()
+        if table and any(n in out for n in table):
+            import re as _re
+            out = _re.sub(r"(?<![A-Za-z0-9_\"])(?:(?:Self|self|super|crate|[a-z_][a-z0-9_]*)::)*(" + "|".join(map(_re.escape, sorted(table, key=len, reverse=True))) + r")(?![A-Za-z0-9_])",
+                          lambda m_: self._lit_text(table[m_.group(1)]), out)
+        return out
+
+    @staticmethod
+    def _lit_text(lit):
+        v = lit.get("value")
+        if lit.get("lit") == "Str":
+            return '"' + str(v).replace("\\", "\\\\").replace('"', '\\"').replace("\n", "\\n").replace("\t", "\\t") + '"'
+        if lit.get("lit") == "Char":
+            return "'" + str(v) + "'"
+        return str(v)
 
     # ---------------- E1: MIR facts
     def mir_dir(self):
